@@ -25,7 +25,7 @@ MAP = {
     ('downstream', 1): ('mem:c_downstream', 'flowdir'),
     ('delineate_area', 1): ('mem:delineate_area', 'flowdir'),
     ('delineate_river', 4): ('mem:delineate_river', 'flowdir'),
-    ('slice', 4): None,     # c_slice is not encoded: listed as outside the claim
+    ('slice', 4): ('mem:slice', 'data'),
 }
 
 
@@ -197,7 +197,204 @@ def alias_relation(tier):
     return out
 
 
-CONTRACTS = [alias_relation]
+def write_probe(tier):
+    """Python layer: every public array-taking function is called (real compiled modules) with caller arrays whose WRITEABLE flag is cleared, over
+    the dtype / layout grid.  Any in-place write through the argument or a view of it then raises numpy's read-only error whatever the values are;
+    in addition values, dtype and shape are compared bit for bit after the call, and two consecutive calls must return the same result.
+    Other exceptions (a Cython buffer that wants a writeable array although the kernel only reads it, a pandas restriction) make the call
+    not probe-able and are counted, not judged.  Concrete and deterministic (labelled as such): this complements the recorded alias relation for
+    functions that never reach a kernel with the caller's buffer."""
+    import warnings
+    import pandas as pd
+    import matplotlib
+    matplotlib.use('Agg')
+    import matplotlib.pyplot as plt
+    from hydrodiy.data import dutils as D, qualitycontrol as Q, signatures as SG
+    from hydrodiy.stat import metrics as M, sutils as SU, armodels as A, transform as T
+    from hydrodiy.gis import gutils as GU, grid as G
+    from hydrodiy.plot import putils as PU, boxplot as BP
+    out = []
+    stats = dict(calls=0, skipped=0)
+    RO = ('assignment destination is read-only', 'output array is read-only', 'array is read-only', 'is read-only')
+
+    def ro(a):
+        a = a.copy() if not isinstance(a, np.ndarray) or a.base is None else a
+        return a
+
+    def variants(a):
+        a = np.asarray(a)
+        v = {'float64-contiguous': np.ascontiguousarray(a, dtype=np.float64)}
+        if a.ndim == 1:
+            big = np.zeros((len(a), 2))
+            big[:, 0] = a
+            v['float64-strided'] = big[:, 0]
+        else:
+            v['float64-fortran'] = np.asfortranarray(a, dtype=np.float64)
+        if np.all(np.isfinite(a)) and np.all(a == np.round(a)):
+            v['int64'] = a.astype(np.int64)
+        v['float32'] = a.astype(np.float32)
+        return v
+
+    def same_result(r1, r2):
+        try:
+            if isinstance(r1, tuple):
+                return len(r1) == len(r2) and all(same_result(a, b) for a, b in zip(r1, r2))
+            if isinstance(r1, (pd.Series, pd.DataFrame)):
+                return r1.equals(r2)
+            if isinstance(r1, G.Grid):
+                return np.array_equal(r1.data, r2.data, equal_nan=True)
+            if isinstance(r1, dict):
+                return set(r1) == set(r2) and all(same_result(r1[k], r2[k]) for k in r1)
+            a1, a2 = np.asarray(r1), np.asarray(r2)
+            if a1.dtype == object or a2.dtype == object:
+                return True
+            return a1.shape == a2.shape and bool(np.array_equal(a1, a2, equal_nan=True))
+        except Exception:
+            return True
+
+    def probe(name, arrays, call, repeat=True):
+        """arrays: dict name -> ndarray template; call(dict of read-only arrays) -> result"""
+        names = list(arrays)
+        vsets = {k: variants(a) for k, a in arrays.items()}
+        for vn in ('float64-contiguous', 'float64-strided', 'float64-fortran', 'int64', 'float32'):
+            if not all(vn in vsets[k] or 'float64-contiguous' in vsets[k] for k in names) or not any(vn in vsets[k] for k in names):
+                continue
+            vs = {k: (vsets[k][vn] if vn in vsets[k] else vsets[k]['float64-contiguous']) for k in names}
+            keep = {k: (v.copy(), v.dtype, v.shape) for k, v in vs.items()}
+            for v in vs.values():
+                v.flags.writeable = False
+                if v.base is not None and isinstance(v.base, np.ndarray):
+                    v.base.flags.writeable = False
+            tag = dict(function=name, variant=vn)
+            res = []
+            wrote = None
+            err = None
+            with warnings.catch_warnings():
+                warnings.simplefilter('ignore')
+                for k in range(2 if repeat else 1):
+                    try:
+                        np.random.seed(5446)      # "the same random seed where randomness is involved"
+                        res.append(call(vs))
+                    except Exception as e:
+                        msg = str(e)
+                        if isinstance(e, ValueError) and any(m in msg for m in RO) and 'buffer source' not in msg:
+                            wrote = msg
+                        else:
+                            err = repr(e)[:120]
+                        break
+            plt.close('all')
+            stats['calls'] += 1
+            if err is not None:
+                stats['skipped'] += 1
+            out.append(('no-in-place-write-into-an-argument', wrote is None, dict(tag, error=wrote)))
+            ok = all(np.array_equal(vs[k], keep[k][0], equal_nan=True) and vs[k].dtype == keep[k][1] and vs[k].shape == keep[k][2] for k in names)
+            out.append(('arguments-bitwise-unchanged', bool(ok), tag))
+            if len(res) == 2:
+                out.append(('two-calls-same-result', same_result(res[0], res[1]), tag))
+
+    x = np.array([1., 2., 3., 4., 2.5, 6., 0.5, 7.])
+    y = np.array([1.5, 1.8, 3.2, 3.9, 2.0, 6.5, 0.7, 6.0])
+    ens = np.column_stack([y, y + 0.5, y - 0.25])
+    u = np.array([0.11, 0.35, 0.52, 0.77, 0.93, 0.25, 0.64, 0.41])
+    cat = np.array([0., 1., 2., 1., 0., 2., 1., 1.])
+    for nm, f in (('bias', M.bias), ('nse', M.nse), ('kge', M.kge), ('dscore', M.dscore)):
+        probe('metrics.' + nm, {'obs': x, 'sim': y}, lambda v, f=f: f(v['obs'], v['sim']))
+    for tr in (T.Log(), T.BoxCox2()):
+        probe('metrics.nse[%s]' % tr.name, {'obs': x, 'sim': y}, lambda v, tr=tr: M.nse(v['obs'], v['sim'], trans=tr))
+        probe('metrics.corr[%s]' % tr.name, {'obs': x, 'ens': ens}, lambda v, tr=tr: M.corr(v['obs'], v['ens'], trans=tr))
+    probe('metrics.corr', {'obs': x, 'ens': ens}, lambda v: M.corr(v['obs'], v['ens']))
+    probe('metrics.crps', {'obs': x, 'ens': ens}, lambda v: M.crps(v['obs'], v['ens']))
+    probe('metrics.pit', {'obs': x, 'ens': ens}, lambda v: M.pit(v['obs'], v['ens']))
+    probe('metrics.alpha', {'obs': x, 'ens': ens}, lambda v: M.alpha(v['obs'], v['ens']))
+    probe('metrics.iqr', {'ens': ens, 'ref': ens + 0.1}, lambda v: M.iqr(v['ens'], v['ref']))
+    probe('metrics.anderson_darling_test', {'u': u}, lambda v: M.anderson_darling_test(v['u']))
+    probe('metrics.cramer_von_mises_test', {'u': u}, lambda v: M.cramer_von_mises_test(v['u']))
+    probe('metrics.relative_percentile_error', {'obs': x, 'sim': y}, lambda v: M.relative_percentile_error(v['obs'], v['sim'], [0, 100]))
+    probe('metrics.confusion_matrix', {'obs': cat, 'sim': cat[::-1].copy()}, lambda v: M.confusion_matrix(v['obs'], v['sim']))
+    probe('sutils.acf', {'x': x}, lambda v: SU.acf(v['x'], 2))
+    probe('sutils.standard_normal', {'x': x}, lambda v: SU.standard_normal(v['x']))
+    probe('sutils.semicorr', {'u': np.column_stack([x, y]) - 3.}, lambda v: SU.semicorr(v['u']))
+    probe('sutils.pareto_front', {'d': np.column_stack([x, y[::-1]])}, lambda v: SU.pareto_front(v['d']))
+    probe('sutils.lhs', {'pmin': np.array([0., 1.]), 'pmax': np.array([1., 3.])}, lambda v: SU.lhs(5, v['pmin'], v['pmax']), repeat=False)
+    probe('sutils.lstsq', {'X': np.column_stack([x, y * y]), 'y': y}, lambda v: SU.lstsq(v['X'], v['y']))
+    probe('armodels.armodel_sim', {'p': np.array([0.5, 0.1]), 'e': x}, lambda v: A.armodel_sim(v['p'], v['e']))
+    probe('armodels.armodel_residual', {'p': np.array([0.5, 0.1]), 'e': x}, lambda v: A.armodel_residual(v['p'], v['e']))
+    probe('armodels.yule_walker', {'acf': np.array([0.5, 0.2])}, lambda v: A.yule_walker(v['acf']))
+    for nm in T.__all__:
+        if nm in ('get_transform', 'Transform'):
+            continue
+        try:
+            tr = T.get_transform(nm)
+        except Exception:
+            continue
+        if 'xmax' in [str(n) for n in tr.constants.names]:
+            tr.constants.values = [8.0] + list(tr.constants.values[1:])
+        if nm == 'Softmax':
+            xt = np.column_stack([u, u[::-1]]) / 3.
+        elif nm == 'Logit':
+            xt = u
+        else:
+            xt = x
+        for meth in ('forward', 'backward', 'jacobian'):
+            probe('transform.%s.%s' % (nm, meth), {'x': xt if meth != 'backward' or nm == 'Softmax' else u},
+                  lambda v, tr=tr, meth=meth: getattr(tr, meth)(v['x']))
+    probe('dutils.cast', {'x': x, 'y': y}, lambda v: D.cast(v['x'], v['y']))
+    probe('dutils.sequence_true', {'b': (x > 2).astype(float)}, lambda v: D.sequence_true(v['b'] > 0.5))
+    probe('dutils.lag', {'x': x}, lambda v: D.lag(v['x'], 2))
+    probe('dutils.aggregate', {'idx': np.array([1., 1, 2, 2, 3, 3, 4, 4]), 'x': x}, lambda v: D.aggregate(v['idx'], v['x']))
+    probe('dutils.flathomogen', {'idx': np.array([1., 1, 2, 2, 3, 3, 4, 4]), 'x': x}, lambda v: D.flathomogen(v['idx'], v['x']))
+    probe('qualitycontrol.islinear', {'x': x}, lambda v: Q.islinear(v['x']))
+    probe('qualitycontrol.ismisscens', {'x': x}, lambda v: Q.ismisscens(v['x']))
+    probe('signatures.eckhardt', {'x': x}, lambda v: SG.eckhardt(v['x']))
+    probe('signatures.fdcslope', {'x': np.arange(1., 60.)}, lambda v: SG.fdcslope(v['x']))
+    probe('signatures.goue', {'idx': np.array([1., 1, 2, 2, 3, 3, 4, 4]), 'x': x}, lambda v: SG.goue(v['idx'], v['x']))
+    probe('gutils.points_inside_polygon', {'pts': np.column_stack([x, y]), 'poly': np.array([[0, 0], [5, 0], [5, 5.], [0, 5.]])},
+          lambda v: GU.points_inside_polygon(v['pts'], v['poly']))
+    probe('boxplot.boxplot_stats', {'x': x}, lambda v: BP.boxplot_stats(v['x'], 50, 90))
+    probe('putils.kde', {'xy': np.column_stack([x, y])}, lambda v: PU.kde(v['xy'], ngrid=8))
+    probe('putils.qqplot', {'x': x}, lambda v: PU.qqplot(plt.subplots()[1], v['x']), repeat=False)
+    probe('putils.ecdfplot', {'x': np.column_stack([x, y])}, lambda v: PU.ecdfplot(plt.subplots()[1], pd.DataFrame(v['x'], columns=['a', 'b'])), repeat=False)
+    # grid arguments keep their cell values (the data block is made read-only)
+    def gcase(name, dtype, fn):
+        g = G.Grid('g', 6, 5, dtype=dtype)
+        g.data = (np.arange(30).reshape(5, 6) % 7 + 1).astype(dtype)
+        keep = g.data.copy()
+        blk = g._data
+        blk.flags.writeable = False
+        wrote, err, res = None, None, []
+        with warnings.catch_warnings():
+            warnings.simplefilter('ignore')
+            for k in range(2):
+                try:
+                    np.random.seed(5446)
+                    res.append(fn(g))
+                except Exception as e:
+                    if isinstance(e, ValueError) and any(m in str(e) for m in RO) and 'buffer source' not in str(e):
+                        wrote = str(e)
+                    else:
+                        err = repr(e)[:120]
+                    break
+        stats['calls'] += 1
+        if err is not None:
+            stats['skipped'] += 1
+        tag = dict(function=name, variant=str(np.dtype(dtype)))
+        out.append(('no-in-place-write-into-an-argument', wrote is None, dict(tag, error=wrote)))
+        out.append(('arguments-bitwise-unchanged', bool(np.array_equal(g._data, keep)) and g._data is blk, tag))
+        if len(res) == 2:
+            out.append(('two-calls-same-result', same_result(res[0], res[1]), tag))
+    for dt in (np.float64, np.float32, np.int64):
+        gcase('grid.gsmooth', dt, lambda g: G.gsmooth(g, coastwin=20, sigma=1.))
+        gcase('Grid.clone', dt, lambda g: g.clone())
+        gcase('Grid.clip', dt, lambda g: g.clip(1.2, 1.2, 3.8, 3.8))
+        gcase('Grid.apply', dt, lambda g: g.apply(lambda d: d * 2))
+        gcase('Grid.slice', dt, lambda g: g.slice(np.array([[0.5, 0.5], [4.5, 3.5]])))
+        gcase('Grid.interpolate', dt, lambda g: g.interpolate(G.Grid('h', 3, 3, cellsize=2.)))
+        gcase('Grid.coord2cell', dt, lambda g: g.coord2cell(np.array([[0.5, 0.5], [4.5, 3.5]])))
+    out.append(('probed-calls', stats['calls'] >= 100 and stats['skipped'] * 3 <= stats['calls'], dict(stats)))
+    return out
+
+
+CONTRACTS = [alias_relation, write_probe]
 
 
 def contracts_part(tier, seed, workdir):
@@ -212,8 +409,9 @@ META = dict(
                 'blocks of Grid arguments) and kernel arguments; (2) for every kernel buffer a caller array can alias, engine A executes the kernel IR '
                 'with symbolic contents and shows that no store instruction targets that buffer on any feasible path and that no global is written',
     bounds=['kernel sizes as in C05 quick (non-empty instances, at most 8 per kernel)', 'one representative call per wrapper and input variant'],
-    outside=['plot helpers, pandas copies, transform methods, RNG-seeded repeatability, functions that do not reach a kernel (e.g. gsmooth): not claimed',
-             'c_slice (not encoded)', 'numpy copy/view decisions are assumed to depend on dtype and layout only, not on values'],
+    outside=['the Python layer (functions that do not hand the caller\'s buffer to a kernel, e.g. gsmooth, transform methods, plot helpers) is only covered by '
+             'the concrete read-only write probe (one representative call per function and dtype/layout variant), not by a solver verdict',
+             'numpy copy/view decisions are assumed to depend on dtype and layout only, not on values'],
     assumptions=['a buffer is "written" if any store instruction targets it (syntactic over-approximation)'],
     stubs=['recording stand-in for c_hydrodiy_data / c_hydrodiy_stat / c_hydrodiy_gis'],
 )
